@@ -14,6 +14,8 @@ use crate::{
 use crate::{features, term};
 use colored::Colorize;
 use miette::Result;
+#[cfg(lace_verif)]
+use crate::{verif_eprintln as eprintln, verif_println as println};
 
 /// First address which is out of bounds of user memory.
 pub const USER_MEMORY_END: u16 = 0xFE00;
@@ -28,6 +30,8 @@ macro_rules! exception {
             concat!("exception: ", $fmt, ", exiting")
             $($tt)*
         );
+        #[cfg(lace_verif)]
+        crate::verif::exit_hook(0xEE);
         std::process::exit(0xEE);
     }};
 }
@@ -128,6 +132,8 @@ impl RunEnvironment {
     /// Run with preset memory
     pub fn run(&mut self) {
         loop {
+            #[cfg(lace_verif)]
+            crate::verif::tick();
             if let Some(debugger) = &mut self.debugger {
                 Output::Debugger(Condition::Always, Default::default()).start_new_line();
 
@@ -181,6 +187,8 @@ impl RunEnvironment {
                 _ => (),
             }
 
+            #[cfg(lace_verif)]
+            crate::verif::fetch(self.state.pc, self.state.mem[self.state.pc as usize]);
             let instr = self.state.mem[self.state.pc as usize];
             // PC incremented before instruction is performed
             self.state.pc += 1;
@@ -306,6 +314,8 @@ impl RunState {
                 Halting...\
                 "
             );
+            #[cfg(lace_verif)]
+            crate::verif::exit_hook(1);
             std::process::exit(1);
         }
 
@@ -580,12 +590,23 @@ fn read_char() -> char {
 /// Handles `UnexpectedEof` by printing error minimally and exiting.
 /// Panics on any other error.
 fn read_byte_stdin(mut stdin: io::Stdin) -> u8 {
+    #[cfg(lace_verif)]
+    match crate::verif::input_byte() {
+        None => (),
+        Some(Some(injected)) => return injected,
+        Some(None) => {
+            eprintln!("unexpected end of input file stream.");
+            crate::verif::exit_hook(1);
+        }
+    }
     let mut buf = [0; 1];
     if let Err(err) = stdin.read_exact(&mut buf) {
         if let io::ErrorKind::UnexpectedEof = err.kind() {
             // This should NOT use `exception!`: it is an error with the
             // emulator, not the CPU
             eprintln!("unexpected end of input file stream.");
+            #[cfg(lace_verif)]
+            crate::verif::exit_hook(1);
             std::process::exit(1);
         } else {
             panic!("failed to read character from stdin: {:?}", err)
@@ -679,5 +700,68 @@ mod test {
 
         expect(0xffff, 15, 0xffff);
         expect(0xffff, 1, 0xffff);
+    }
+}
+
+/// Verification façade: direct access to the machine state (only with `--cfg lace_verif`).
+#[cfg(lace_verif)]
+pub mod verif_access {
+    use super::*;
+
+    /// Plain copy of everything in a [`RunState`].
+    #[derive(Clone)]
+    pub struct Snapshot {
+        pub mem: Vec<u16>,
+        pub pc: u16,
+        pub reg: [u16; 8],
+        /// Condition code bits: N=4, Z=2, P=1, none=0.
+        pub flag: u8,
+        pub orig: u16,
+    }
+
+    fn flag_from(bits: u8) -> RunFlag {
+        match bits {
+            0b100 => RunFlag::N,
+            0b010 => RunFlag::Z,
+            0b001 => RunFlag::P,
+            _ => RunFlag::Uninit,
+        }
+    }
+
+    impl RunEnvironment {
+        pub fn verif_snapshot(&self) -> Snapshot {
+            Snapshot {
+                mem: self.state.mem.to_vec(),
+                pc: self.state.pc,
+                reg: self.state.reg,
+                flag: self.state.flag as u8,
+                orig: self.state.orig,
+            }
+        }
+        pub fn verif_mem(&mut self) -> &mut [u16; MEMORY_MAX] {
+            &mut self.state.mem
+        }
+        pub fn verif_reg(&mut self) -> &mut [u16; 8] {
+            &mut self.state.reg
+        }
+        pub fn verif_pc(&mut self) -> &mut u16 {
+            &mut self.state.pc
+        }
+        pub fn verif_orig(&mut self) -> &mut u16 {
+            &mut self.state.orig
+        }
+        pub fn verif_flag(&self) -> u8 {
+            self.state.flag as u8
+        }
+        pub fn verif_set_flag(&mut self, bits: u8) {
+            self.state.flag = flag_from(bits);
+        }
+        /// Execute one instruction word on the current state (PC is taken as already incremented).
+        pub fn verif_execute(&mut self, instr: u16) {
+            self.state.execute(instr);
+        }
+        pub fn verif_has_debugger(&self) -> bool {
+            self.debugger.is_some()
+        }
     }
 }
